@@ -13,7 +13,7 @@ import isogen
 import readcheck
 
 LEVEL = "proof"
-CONE = ["Props/C11.v", "Proofs/GenericPrefix.v", "Proofs/GenericFrag.v"]
+CONE = ["Props/C11.v", "Props/C11Open.v", "Props/C11Frag.v", "Proofs/FragPrefix.v", "Proofs/GenericPrefix.v", "Proofs/GenericFrag.v", "Proofs/MuxPrefix.v"]
 
 
 def files(rng, tier):
@@ -23,7 +23,13 @@ def files(rng, tier):
         trs = readcheck.small_tracks(rng, maxn=6)
         # every third movie: a box in front of ftyp (signature box / free box of a size that lets a cut fall inside ftyp past the top-level size check)
         lead = [isogen.Box("jP  ", [isogen.Raw(b"\r\n\x87\n")])] if i % 6 == 2 else [isogen.Box("free", [isogen.Raw(b"\0" * rng.choice([16, 40, 100]))])] if i % 3 == 2 else []
-        r, _, nodes = isogen.build_movie(trs, "moov_first" if i % 2 == 0 else "mdat_first", udta=udta if i % 3 == 0 else None, lead=lead)
+        # i % 3 == 1: the media data box in the 64-bit header form; i % 4 == 3: a 64-bit-header free box as the last box of the file (a cut inside the
+        # last 8 bytes of a skipped box with the long header must be handled like any other cut)
+        r, _, nodes = isogen.build_movie(trs, "moov_first" if i % 2 == 0 else "mdat_first", udta=udta if i % 3 == 0 else None, lead=lead, mdat_to_eof=(i % 4 == 0),
+                                         large_mdat=(i % 3 == 1))
+        if i % 4 == 3:
+            nodes = nodes + [isogen.Box("free", [isogen.Raw(b"\0" * 5)], large=True)]
+            r = isogen.render(nodes)
         if i % 2 == 1:
             # movie header last: shuffle the children of every container (any table may then be the last bytes of the file)
             import check_c12
@@ -51,13 +57,17 @@ def files(rng, tier):
         tracks = [{"id": 1, "kind": "avc", "ts": 1000}, {"id": 2, "kind": "aac", "ts": 48000}][:rng.choice([1, 2])]
         frags = []
         clock = {1: 0, 2: 0}
-        for f in range(3):
+        cnt = {1: 1, 2: 1}
+        # 3-6 fragments with runs of 1-5 samples (i == 0: the runs 3, 2, 4, 3, 5 — a prefix holding the first four looks "uniform" by first/last/total)
+        nfr = 5 if i == 0 else rng.choice([3, 4, 5, 6])
+        for f in range(nfr):
             fr = []
             for t in tracks:
-                n = rng.choice([1, 2, 3])
+                n = [3, 2, 4, 3, 5][f] if i == 0 else rng.choice([1, 2, 3, 4, 5])
                 durs = [rng.choice([10, 20]) for _ in range(n)]
                 fr.append({"track_id": t["id"], "base": rng.choice(["moof", "explicit"]), "tfhd_dur": None, "tfdt": clock[t["id"]], "durations": durs,
-                           "sizes": [rng.choice([1, 4, 9]) for _ in range(n)], "cts": None, "k0": 1 + 3 * f})
+                           "sizes": [rng.choice([1, 4, 9]) for _ in range(n)], "cts": None, "k0": cnt[t["id"]]})
+                cnt[t["id"]] += n
                 clock[t["id"]] += sum(durs)
             frags.append(fr)
         init, fin = isogen.build_fragmented(tracks, frags, trex_dur=0)
@@ -94,7 +104,7 @@ def compare_prefix(full, pre, fragmented):
 
 
 def check(rep):
-    proof_ok, details = common.proof_layer(rep, "C11", CONE, extra_targets=["theories/Extract/Extract.vo"])
+    proof_ok, details = common.proof_layer(rep, ["C11", "C11Open", "C11Frag"], CONE, extra_targets=["theories/Extract/Extract.vo"])
     with common.Lock():
         hb_ok, hb_log = common.harness_build(["run"])
         ob_ok, ob_log = common.ocaml_build()
